@@ -43,6 +43,15 @@ def transfer_calls(p):
     return [e for e in p.effects if e.kind in ('call', 'icall') and e.name in TRANSFER]
 
 
+def remaining_var(lmap, total):
+    """([key], counts_up) of the loop variable that keeps the account of a transfer loop"""
+    down = [k for k, (h, pre) in lmap.items() if pre is not None and strip_cast(pre) == total]
+    if down:
+        return down, False
+    upv = [k for k, (h, pre) in lmap.items() if pre is not None and strip_cast(pre) == C(0)]
+    return upv, True
+
+
 def retry_loop_rule(ck, u, eng, fname, paths, base_param, total_param):
     """position invariant + retry policy of a `while (rest > 0)` transfer loop"""
     where = cast.where(u.fn(fname))
@@ -80,8 +89,9 @@ def retry_loop_rule(ck, u, eng, fname, paths, base_param, total_param):
         e = tc[0]
         pi, ci = TRANSFER[e.name]
         lmap = p.loops[-1][1]
-        # remaining counter = loop-carried variable with a pre-loop value equal to total
-        rem = [k for k, (h, pre) in lmap.items() if pre == total]
+        # the account of the loop: a loop-carried variable that starts at the requested count and runs down (what
+        # remains), or one that starts at 0 and runs up (what is done; remaining = total - done)
+        rem, up = remaining_var(lmap, total)
         if len(rem) != 1:
             unchanged = all(strip_cast(p.mem.get(k, h)) == h for k, (h, pre) in lmap.items() if pre is not None)
             if p.end == 'loopback' and unchanged and eng.entails(p, -L(e.result)):
@@ -92,6 +102,7 @@ def retry_loop_rule(ck, u, eng, fname, paths, base_param, total_param):
             continue
         rk = rem[0]
         h_r = lmap[rk][0]
+        R = (L(total) - L(h_r)) if up else L(h_r)                  # octets that remain at the loop head
         pos = position(e.args[pi])
         facts = eng.path_facts(p)
         # base case: position with loop variables at their pre-loop values == base
@@ -103,10 +114,10 @@ def retry_loop_rule(ck, u, eng, fname, paths, base_param, total_param):
             ck.violation('C17.b', fname + ':start', e.where(), 'first transfer is at %s, not at the start of the caller\'s region %s' % (fmt(pos0), base_param))
         # count never exceeds what remains
         if ci is not None:
-            okc = eng.entails(facts, L(e.args[ci]) - L(h_r))
+            okc = eng.entails(facts, L(e.args[ci]) - R)
             ck.verdict(okc, 'C17.b', '%s:%s:count' % (fname, e.name), e.where(),
                        'asks the driver for at most the remaining count' if okc else
-                       'asks the driver for %s octets while %s remain' % (fmt(e.args[ci]), fmt(h_r)))
+                       'asks the driver for %s octets while %s remain' % (fmt(e.args[ci]), R))
         res = e.result
         if p.end == 'return':
             # hard error: returned unchanged under res < 0
@@ -119,7 +130,7 @@ def retry_loop_rule(ck, u, eng, fname, paths, base_param, total_param):
             # a retry signal must never leave the loop: octets may already have been moved in
             # earlier iterations, and every caller that sees -EINTR/-EAGAIN starts the request again
             leak = [nm for nm, v in (('-EINTR', EINTR), ('-EAGAIN', EAGAIN))
-                    if eng.feasible(p.cond_terms() + [('cmp', '==', res, C(v)), ('cmp', '<', h_r, total)])]
+                    if eng.feasible(p.cond_terms() + [('cmp', '==', res, C(v)), ('cmp', '<', C(0), h_r) if up else ('cmp', '<', h_r, total)])]
             ck.verdict(not leak, 'C17.c', '%s:%s:no-retry-signal-escapes' % (fname, e.name), e.where(),
                        'the loop never returns -EINTR/-EAGAIN (it retries them in place, at the current position)' if not leak else
                        '%s from the driver is returned out of the loop after earlier iterations may have moved octets; callers '
@@ -127,7 +138,7 @@ def retry_loop_rule(ck, u, eng, fname, paths, base_param, total_param):
             continue
         # loopback: either retry (counter unchanged) or progress (counter reduced by result)
         r_after = p.mem.get(rk, h_r)
-        moved = L(h_r) - L(r_after)
+        moved = (L(r_after) - L(h_r)) if up else (L(h_r) - L(r_after))
         post_sub = {h: p.mem.get(k, h) for k, (h, pre) in lmap.items()}
         pos1 = sym.substitute(pos, post_sub)
         adv = L(pos1) - L(pos)
@@ -161,9 +172,9 @@ def retry_loop_rule(ck, u, eng, fname, paths, base_param, total_param):
         return ck.broken('C17.b', fname + ':counter', where, 'cannot identify the remaining-count variable')
     for p in exits:
         lmap = p.loops[-1][1]
-        rem = [h for k, (h, pre) in lmap.items() if pre == total]
+        rem, up = remaining_var(lmap, total)
         if len(rem) == 1:
-            z = L(rem[0])
+            z = (L(total) - L(lmap[rem[0]][0])) if up else L(lmap[rem[0]][0])
             done = eng.entails(p, z) and eng.entails(p, -z)
             ck.verdict(done, 'C17.a', fname + ':exit-complete', cast.where(p.node) if p.node else where,
                        'the loop is left only when nothing remains' if done else
